@@ -190,8 +190,8 @@ var (
 	// names that are label names only in UTF-8 mode (the binary's and amtool's default): usable in `matchers:` (quoted)
 	// and in alerts, not in the deprecated match / match_re maps
 	unames   = []string{"k8s.ns", "région"}
-	lvalues  = []string{"x", "y", "xy", "", "xz", "zy", "x$", "yx"}
-	eqValues = []string{"x", "x", "y", "y", "xy", ""}
+	lvalues  = []string{"x", "y", "xy", "", "xz", "zy", "x$", "yx", "C:\\node", "x\\ny"}
+	eqValues = []string{"x", "x", "y", "y", "xy", "", "C:\\node", "x\\ny"} // incl. a backslash followed by n
 	rePats   = []string{"x", "y", "x|y", "x.*", ".*", ".+", "[xy]", "y?", "", "x+y", "(x|y)+",
 		// anchors written by the user (around a top-level alternation, on one side only, escaped): a regexp matcher is
 		// matched against the WHOLE value whatever its text looks like
@@ -384,7 +384,7 @@ func genLabelSets(r *vh.Rand, n int) []map[string]string {
 			switch k := r.Intn(10); {
 			case k < 3: // absent
 			case k < 9:
-				ls[ln] = vh.Pick(r, []string{"x", "y", "x", "y", "xy"})
+				ls[ln] = vh.Pick(r, []string{"x", "y", "x", "y", "xy", "C:\\node", "x\\ny"})
 			default:
 				ls[ln] = "" // present but empty
 			}
@@ -1235,6 +1235,7 @@ func TestCheck(t *testing.T) {
 			run.Count("exhaustive", c.Note)
 		})
 	}
+	amtoolVerifyPart(t, run, env) // amtool_verify_test.go: the real `routes test --verify.receivers` command line
 	if err := run.Finish("corpus + 5 hand-written trees + random routing trees (depth <= 4, fan-out <= 4, ~11% invalid) as configuration text through config.Load + dispatch.NewRoute; per tree 14 label sets over 3 labels x {x,y,xy,empty,absent}; consumers (API, amtool, amtool --tree, Dispatcher groups and notifications) compared per label set; thorough tier adds all trees <= 5 nodes over 2 labels x 2 values with all continue flags x 9 label sets; non-trivial = some label set is routed below the root; distinct by full case text"); err != nil {
 		t.Fatal(err)
 	}
